@@ -120,6 +120,9 @@ class Program:
                 if name == "Option::unwrap_or" and len(args) == 2 and args[1] == ("int", 0) and args[0][0] == "call" \
                         and args[0][1] == "usize::checked_sub":
                     return ("call", "usize::saturating_sub", args[0][2])
+                if name == "Option::from_residual" and len(args) == 1:
+                    # `opt?` on the None path returns None
+                    return ("adt", "std::option::Option", "None", ())
                 acc = self.accessor(name) if name.startswith("crate::") else None
                 if acc is not None:
                     abody, term = acc
@@ -136,11 +139,18 @@ class Program:
                 a, b = sorted([a, b], key=repr)
             return ("bin", op, a, b)
         if tag == "un":
-            return ("un", t[1], S(t[2]))
+            x = S(t[2])
+            if t[1] == "Not" and x[0] == "bool":
+                return ("bool", not x[1])
+            return ("un", t[1], x)
         if tag == "cast":
             return ("cast", t[1], S(t[2]), t[3])
         if tag == "field":
             base = S(t[1])
+            if t[2] == "0" and base[0] == "as" and base[2] == "Continue" and base[1][0] == "call" \
+                    and base[1][1] == "Option::branch" and len(base[1][2]) == 1:
+                # `opt?` is `match opt { Some(v) => v, None => return None }`
+                return S(("field", ("as", base[1][2][0], "Some"), "0"))
             if t[2] == "0" and base[0] == "as" and base[2] == "Some" and base[1][0] == "call" \
                     and base[1][1] == "Option::map" and len(base[1][2]) == 2 and base[1][2][1][0] == "closure":
                 # payload of x.map(f) is f(payload of x)
@@ -188,6 +198,9 @@ class Program:
         if tag == "discr":
             base = S(t[1])
             base = _opt_transparent(base)
+            if base[0] == "call" and base[1] == "Option::branch" and len(base[2]) == 1:
+                ren = {"Continue": "Some", "Break": "None"}
+                return S(("discr", base[2][0], tuple((ren.get(n, n), v) for n, v in t[2])))
             if base[0] == "call" and base[1] in ("Option::map",) and len(base[2]) == 2:
                 base = _opt_transparent(base[2][0])
             return ("discr", base, t[2])
